@@ -901,7 +901,17 @@ func (x *Exec) convert(st *State, i *ssa.Convert) SymVal {
 	}
 	// string <-> []byte and friends: fresh value
 	x.note("conversion %s -> %s abstracted", i.X.Type(), i.Type())
-	return x.freshVal(st, i.Type(), "conv")
+	r := x.freshVal(st, i.Type(), "conv")
+	if fok && fb.Info()&types.IsString != 0 {
+		if _, ok := to.(*types.Slice); ok {
+			// []byte(s): a fresh slice that remembers the string it was made from
+			if rt := r; rt.Sort == SSlice {
+				st.Assume(Eq(app(SStr, "strsrc", SlBase(rt)), v))
+				st.Assume(Neq(SlBase(rt), Zero))
+			}
+		}
+	}
+	return r
 }
 
 func (x *Exec) boxFuns(sort string) (string, string) {
